@@ -136,3 +136,24 @@ package types
 //@ loop 0 invariant 0 <= idx && idx <= len(h) && HookOK
 //@ loop 0 invariant hookN("BeforeSellingCoinsAllocated") == old(hookN("BeforeSellingCoinsAllocated")) + idx
 //@ loop 0 invariant idx > 0 ==> hookArgsAre("BeforeSellingCoinsAllocated", auctionId, allocationMap, refundMap)
+
+// Stateless validation accepts exactly the well-formed messages (C18).
+//@ func (MsgCancelAuction).ValidateBasic
+//@ ensures [C18] accepts-exactly-well-formed: (result == nil) == wfCancel(msg)
+
+//@ func (MsgPlaceBid).ValidateBasic
+//@ ensures [C18] accepts-exactly-well-formed: (result == nil) == wfPlaceBid(msg)
+
+//@ func (MsgModifyBid).ValidateBasic
+//@ ensures [C18] accepts-exactly-well-formed: (result == nil) == wfModifyBid(msg)
+
+//@ func (MsgAddAllowedBidder).ValidateBasic
+//@ ensures [C18] accepts-exactly-well-formed: (result == nil) == wfAddAllowedBidder(msg)
+
+//@ func (MsgCreateFixedPriceAuction).ValidateBasic
+//@ requires timesSane(msg.VestingSchedules)
+//@ ensures [C18,C09] accepts-exactly-well-formed: (result == nil) == wfCreateFixed(msg)
+
+//@ func (MsgCreateBatchAuction).ValidateBasic
+//@ requires timesSane(msg.VestingSchedules)
+//@ ensures [C18,C09] accepts-exactly-well-formed: (result == nil) == wfCreateBatch(msg)
